@@ -7,7 +7,7 @@ driver for the transmit-queue / receive-buffer model (engine `txqueue`, C24)
   tx <hex>                    queue a message
   feedtx a<k>|wb|lost|fail …  answers to the coming send calls
   feedrx d<hex>|wb|lost|fail … answers to the coming recv calls (`d-` = end of stream)
-  stx | stx1 | srx | srx1 | clr | live <0|1>
+  stx | stx1 | srx | srx1 | clr | cat | live <0|1>          (cat = catRxbs: reply has ` ret=<hex>` appended)
 reply (every op): `ok|raised q=<hex,…> rx=<hex> cut=<b> live=<b> ds=<hex> dw=<hex|…> dr=<hex> dwr=<hex|…>`
 (`d*` = what this op added to the environment's record and to the wire log).
 -/
@@ -62,7 +62,7 @@ def render (old : State) (r : Res) : String :=
   " ds=" ++ bytesToHex (s.sent.drop old.sent.length) ++
   " dw=" ++ showList "|" (s.wtx.drop old.wtx.length) ++
   " dr=" ++ bytesToHex (s.recvd.drop old.recvd.length) ++
-  " dwr=" ++ showList "|" (s.wrx.drop old.wrx.length)
+  " dwr=" ++ showList "|" (s.wrx.drop old.wrx.length) ++ " id=1"
 
 def apply (st : Option State) (op : Op) : Option State × String :=
   match st with
@@ -95,6 +95,13 @@ def step (st : Option State) (line : String) : Option State × String :=
   | ["srx"] => apply st .serviceReceives
   | ["srx1"] => apply st .serviceReceiveOnce
   | ["clr"] => apply st .clearRxbs
+  | ["cat"] =>
+    -- catRxbs exists on the socket transports only; its return value is the content before the call
+    match st with
+    | some s =>
+      if s.kind.isSerial then (st, "bad-op")
+      else let (st', line) := apply st .catRxbs; (st', line ++ " ret=" ++ bytesToHex s.rxbs)
+    | none => (st, "bad-op")
   | ["live", b] =>
     match bool? b with
     | some b => apply st (.setLive b)
